@@ -26,7 +26,7 @@ I = IntSort()
 S = SeqSort(I)
 
 RLIMIT = int(os.environ.get('PYVC_RLIMIT', '0'))
-TIMEOUT_MS = int(os.environ.get('PYVC_TIMEOUT_MS', '15000'))
+TIMEOUT_MS = int(os.environ.get('PYVC_TIMEOUT_MS', '10000'))
 
 
 class Unsupported(Exception):
@@ -95,6 +95,19 @@ def extract(relpath, qual):
     return node
 
 
+def extract_region(fn, test_text, which=0):
+    """A region of a long function, addressed structurally: the body of the `which`-th `if` statement whose test
+    unparses to `test_text` (e.g. "state is stDecodeTag").  Returned as a synthetic FunctionDef so that the
+    executor can run it; live-in variables are the region contract's parameters."""
+    found = [n for n in ast.walk(fn) if isinstance(n, ast.If) and ast.unparse(n.test) == test_text]
+    if len(found) <= which:
+        raise ContractError('region %r not found in %s' % (test_text, fn.name))
+    node = found[which]
+    region = ast.FunctionDef(name='%s@%s' % (fn.name, test_text), args=fn.args, body=node.body, decorator_list=[],
+                             returns=None, type_comment=None, lineno=node.lineno, col_offset=0)
+    return ast.fix_missing_locations(region)
+
+
 def extract_property(relpath, qual, which):
     """which in {'getter','setter'} for @property pairs."""
     tree = parse_module(relpath)
@@ -150,12 +163,18 @@ def module_int_consts(relpath):
 # ----------------------------------------------------------------------------------
 class SeqV:
     """A Python sequence of ints: kind in bytes/tuple/list/any ('any' = spec-level, compares by content)."""
-    __slots__ = ('z', 'kind', 'items')
+    __slots__ = ('z', 'kind', 'items', '_octets')
 
-    def __init__(self, z, kind, items=None):
+    def __init__(self, z, kind, items=None, octets=None):
         self.z = z
         self.kind = kind
+        self._octets = octets
         self.items = items      # python ints when built from a literal (PConst): inr facts are added
+
+    @property
+    def octets(self):
+        """elements are known to be in range(256): bytes, or list()/tuple() of bytes"""
+        return self.kind == 'bytes' or bool(self._octets)
 
     def __repr__(self):
         return 'SeqV<%s>(%s)' % (self.kind, self.z)
@@ -375,6 +394,12 @@ def mk_seq(items):
 inr = z3.Function('inr', S, BoolSort())
 
 
+def bytes_axiom(z, tag='b'):
+    """type invariant of a symbolic `bytes` value: every element is in range(256).  The elementwise facts are
+    added by the executor wherever an element of a bytes value is taken (index, ord, iteration)."""
+    return inr(z)
+
+
 def inr_fact_concat(z, a, b):
     return inr(z) == And(inr(a), inr(b))
 
@@ -412,7 +437,7 @@ def mask_and(x, m):
             i = j + 1
         else:
             i += 1
-    return simplify(res)
+    return res
 
 
 def truthy(v):
@@ -506,7 +531,10 @@ class PSeq(PSort):
         self.kind = kind
 
     def make(self, ex, name):
-        return SeqV(Const(name, S), self.kind)
+        z = Const(name, S)
+        if self.kind == 'bytes':
+            ex.assume(bytes_axiom(z, name))
+        return SeqV(z, self.kind)
 
 
 def PBytes():
@@ -648,7 +676,7 @@ class POptions(PSort):
 
 class Loop:
     def __init__(self, invariant=(), variant=None, decl=None, index=None, iter_ensures=(), havoc_fields=(),
-                 unroll=False, yields_each_iteration=False):
+                 unroll=False, yields_each_iteration=False, hints=()):
         self.invariant = list(invariant)
         self.variant = variant
         self.decl = decl or {}
@@ -656,6 +684,7 @@ class Loop:
         self.iter_ensures = list(iter_ensures)
         self.havoc_fields = list(havoc_fields)   # e.g. 'substrate.pos'
         self.unroll = unroll
+        self.hints = list(hints)     # spec-lemma instances, proved standalone, assumed at the end of the body
         self.yields_each_iteration = yields_each_iteration   # progress: an iteration that loops back yielded
 
 
@@ -663,7 +692,7 @@ class Contract:
     def __init__(self, id, file, qual, params, requires=(), ensures=(), raises=None, may_raise=None,
                  loops=None, calls=None, globals=None, yield_ensures=(), returns=None, modifies=(),
                  prop=None, replay=None, properties=(), note='', is_generator=False, getter=None,
-                 exit_ensures=(), defaults=None, assume_after=None, ghost=None, external=(), raise_ensures=None, hints=()):
+                 exit_ensures=(), defaults=None, assume_after=None, ghost=None, external=(), raise_ensures=None, hints=(), region=None):
         self.id = id
         self.file = file
         self.qual = qual
@@ -687,6 +716,7 @@ class Contract:
         self.defaults = defaults or {}
         self.ghost = ghost or {}
         self.external = set(external)
+        self.region = region          # (if-test text, ordinal) inside the target function
         self.hints = list(hints)     # instances of spec lemmas: proved standalone, then assumed at exit
         self.raise_ensures = dict(raise_ensures or {})   # E: [clauses over the state at the raise]             # names of ensures that carry the property (others: scaffolding)
 
@@ -1223,6 +1253,7 @@ class Executor:
                 pass
             except _Break:
                 return
+            self.loop_hints(spec, pre)
             self.vc(pre + '.preserve', self.inv(spec, self.env))
             for dn, dv in spec.decl.items():
                 if isinstance(dv, PObjOneOf):
@@ -1261,6 +1292,13 @@ class Executor:
                 continue
             except _Break:
                 return
+
+    def loop_hints(self, spec, pre):
+        for k, h in enumerate(spec.hints):
+            f = z3bool(self.spec_bool(h, self.env))
+            self.vcs.append(VC('%s.lemma-instance.%d' % (pre, k), [], f, [], 'lemma',
+                               'instance of a spec lemma, proved on its own (no path condition), then used'))
+            self.pc.append(f)
 
     def inv(self, spec, env):
         cs = [self.spec_bool(x, env) for x in spec.invariant]
@@ -1316,6 +1354,8 @@ class Executor:
         self.assume(self.inv(spec, self.env))
         if self.choose(i < seqlen, 'for%d' % lid):
             elt = seq.z[i] if isinstance(seq, SeqV) else seq.elem(i)
+            if isinstance(seq, SeqV) and seq.octets:
+                self.pc.append(And(elt >= 0, elt <= 255))
             self.assign(s.target, Tup([i, elt]) if with_index else elt)
             self.iter_old_env = self.snapshot(self.env)
             try:
@@ -1324,6 +1364,7 @@ class Executor:
                 pass
             except _Break:
                 return
+            self.loop_hints(spec, pre)
             for k, cl in enumerate(spec.iter_ensures):
                 self.vc('%s.iter_post.%d' % (pre, k), self.spec_bool(cl, self.env), kind='external')
             self.env[idxname] = i + 1
@@ -1657,6 +1698,11 @@ class Executor:
                 return toint(a) + cb - mask_and(a, cb)
             if ca is not None and ca >= 0:
                 return toint(b) + ca - mask_and(b, ca)
+            # (x << w) | y with 0 <= y < 2**w: the operands have disjoint bits, so | is +  (proved on this path)
+            za, zb = toint(a), toint(b)
+            for w in (7, 8):
+                if not self.feasible(Not(And(za % (2 ** w) == 0, zb >= 0, zb < 2 ** w))):
+                    return za + zb
             return self.bitop_sym(a, b, 'or')
         if isinstance(op, ast.BitXor):
             return self.bitop_sym(a, b, 'xor')
@@ -1905,7 +1951,7 @@ class Executor:
             if cv is not None:
                 return IntVal(cv) if cv >= 0 else If(n + cv < 0, IntVal(0), n + cv)
             return If(v < 0, If(n + v < 0, IntVal(0), n + v), v)
-        return SeqV(seq_slice(base.z, norm(lo, IntVal(0)), norm(hi, n)), base.kind)
+        return SeqV(seq_slice(base.z, norm(lo, IntVal(0)), norm(hi, n)), base.kind, octets=base.octets)
 
     def index(self, base, k):
         if isinstance(base, bytes):
@@ -1950,13 +1996,23 @@ class Executor:
         n = Length(base.z)
         inb = And(k >= -n, k < n)
         if getattr(self, '_in_spec', 0):
-            return base.z[If(k < 0, n + k, k)]
+            ck = concrete(k)
+            if (ck is not None and ck >= 0) or not self.feasible(k < 0):
+                e = base.z[k]
+                if base.octets:
+                    self.pc.append(Implies(k < n, And(e >= 0, e <= 255)))
+                return e
+            e = base.z[If(k < 0, n + k, k)]
+            if base.octets:
+                self.pc.append(Implies(inb, And(e >= 0, e <= 255)))
+            return e
         if not self.choose(inb, 'index'):
             raise _Raise(ExcV('IndexError'))
         ck = concrete(k)
-        if ck is not None and ck >= 0:
-            return base.z[k]
-        return base.z[If(k < 0, n + k, k)]
+        e = base.z[k] if (ck is not None and ck >= 0) else base.z[If(k < 0, n + k, k)]
+        if base.octets:
+            self.pc.append(And(e >= 0, e <= 255))
+        return e
 
     def ev_Lambda(self, n):
         raise Unsupported('lambda')
@@ -2166,6 +2222,8 @@ def _ord(ex, v):
     if isinstance(v, SeqV):
         if not ex.choose(Length(v.z) == 1, 'ord'):
             raise _Raise(ExcV('TypeError'))
+        if v.octets:
+            ex.pc.append(And(v.z[0] >= 0, v.z[0] <= 255))
         return v.z[0]
     if is_intlike(v):
         raise _Raise(ExcV('TypeError'))
@@ -2224,7 +2282,7 @@ def _tuple(ex, v=None):
     if v is None:
         return SeqV(Empty(S), 'tuple')
     if isinstance(v, SeqV):
-        return SeqV(v.z, 'tuple')
+        return SeqV(v.z, 'tuple', octets=v.octets)
     if isinstance(v, Tup):
         return Tup(v.items, 'tuple')
     raise Unsupported('tuple(%r)' % (v,))
@@ -2234,7 +2292,7 @@ def _list(ex, v=None):
     if v is None:
         return Tup([], 'list')
     if isinstance(v, SeqV):
-        return SeqV(v.z, 'list')
+        return SeqV(v.z, 'list', octets=v.octets)
     if isinstance(v, Tup):
         return Tup(v.items, 'list')
     raise Unsupported('list(%r)' % (v,))
